@@ -54,6 +54,15 @@ CHECKS = {
    text='Bounded exhaustive exploration of LAT=2 decks: regular and irregular (stretched, sheared) hexagons in three orientations, prism axis z/x/oblique, six or eight planes, every admissible listing (start side, chirality, order of the last two side planes, either normal orientation per plane, axial pair order), ranges and asymmetric fill arrays, all choices deviation-bounded and iterated; compared with a reference whose base vectors come from half-plane clipping of the hexagon (a1 across the 1st listed plane, a2 across the 3rd, a3 across the 7th) at complete plane-arrangement witnesses.',
    note='Trusted: MCNP hexagonal index convention as stated in the property; only listings with the 3rd plane adjacent to the 1st are generated. Index assignment is observed through asymmetric arrays (filler identity, composition), not through synthetic element ids.',
    tech='explicit choice-tree enumeration (deviation-bounded) against a clipped-polygon reference lattice model; complete plane-arrangement witnesses'),
+
+ 'C10': dict(cat='model_checking', ref='4/C10',
+   text='Bounded exhaustive exploration of material cards: every Z from 1 to 118 with four mass numbers (complete), and over a 6-nuclide subset all combinations within the deviation bound of library suffix, keyword entries in three positions, 1-3 nuclides, five fraction spellings, positive / negative / mixed signs and mass or atom cell densities; the COMPOSITION block is parsed and compared with an independent periodic table and with the arithmetic of the statement (order, symbol+A / -NAT, DENSITY with NB_ATOM iff positive entries, POINT_WISE concentrations proportional and summing to the density, mixed signs rejected).',
+   note='Trusted: TRIPOLI-4 nuclide naming as used by the writer; metastable ZAIDs not generated; mass fractions with an atom density are outside the statement (the converter warns).',
+   tech='explicit enumeration of material cards; parsed COMPOSITION block vs independent table and arithmetic'),
+ 'C12': dict(cat='model_checking', ref='4/C12',
+   text='Bounded exhaustive exploration of importance specifications on 3-5 level-0 cells whose numbers are not in card order: per cell the source (IMP:N, IMP:N,P, IMP:N+IMP:P in both orders, none), data cards imp:n / imp:p expanded or with nR, nM, nI shorthand, values 0/1/2 at every position; the set of VOLU ids must equal the cells whose maximum importance over particle types is non-zero and the NOTE line must list exactly the others.',
+   note='Trusted: importance = maximum over the particle types (property statement). Decks with all importances zero are not generated.',
+   tech='explicit choice-tree enumeration of importance layouts; set comparison of emitted volumes and NOTE line'),
 }
 NA_REASON = 'check not built yet in this build round (planned, see DESIGN.md section 4); no claim is made'
 
